@@ -283,6 +283,7 @@ pub fn check_case(case: &FunCase, prop: Prop, rep: &mut Report) {
             }
             rep.count("cases", 1);
             rep.count("evaluations", 1);
+            rep.outcomes.insert(format!("all-stages-typed/{fam}"));
             return;
         }
     }
@@ -317,6 +318,9 @@ pub fn check_case(case: &FunCase, prop: Prop, rep: &mut Report) {
 
 pub fn worker(ctx: &WorkerCtx, prop: Prop) -> Report {
     let mut rep = Report::default();
+    if matches!(prop, Prop::C03 | Prop::C04 | Prop::C05 | Prop::C12) {
+        core_worker(ctx, prop, &mut rep);
+    }
     let cfg = FunCfg { thorough: ctx.tier.thorough(), with_unsequenced: prop != Prop::C02 };
     {
         let mut handle = |case: FunCase| {
@@ -344,6 +348,30 @@ pub fn replay(case: &serde_json::Value) -> Result<Option<String>, String> {
     if case["kind"].as_str() == Some("axnl") {
         return replay_nl(case);
     }
+    if case["kind"].as_str() == Some("corefam") {
+        // the program is regenerated from its position in the enumeration: core/<alphabet>/n<size>/<index>
+        let name = case["name"].as_str().ok_or("name")?;
+        let parts: Vec<&str> = name.split('/').collect();
+        if parts.len() != 4 {
+            return Err(format!("bad corefam name {name}"));
+        }
+        let size: usize = parts[2].trim_start_matches('n').parse().map_err(|_| "size")?;
+        let index: usize = parts[3].parse().map_err(|_| "index")?;
+        let (_, alpha, _) = core_enumeration(true, prop).into_iter().find(|(n, _, _)| *n == parts[1]).ok_or("alphabet")?;
+        let mut e = crate::generate::corefam::Enum::new(alpha);
+        let all = e.stmts(crate::generate::corefam::initial_scope(), size);
+        let st = all.get(index).ok_or("index out of range")?;
+        let prog = crate::generate::corefam::program(st);
+        let mut rep = Report::default();
+        check_core_case(name, &prog, prop, &mut rep);
+        if let Some(v) = rep.violations.first() {
+            return Ok(Some(format!("{}: {}", v.sig, v.msg)));
+        }
+        if let Some(m) = rep.machinery.first() {
+            return Err(m.clone());
+        }
+        return Ok(None);
+    }
     let fc = FunCase { name: case["name"].as_str().unwrap_or("replay").to_string(), src, inputs: if input.is_empty() { vec![] } else { vec![input] }, sequenced: true };
     let mut rep = Report::default();
     check_case(&fc, prop, &mut rep);
@@ -354,6 +382,219 @@ pub fn replay(case: &serde_json::Value) -> Result<Option<String>, String> {
         return Err(m.clone());
     }
     Ok(None)
+}
+
+// ---------------------------------------------------------------------------------------------
+// C03 / C04 / C12 on hand-built Core programs (G-CORE)
+// ---------------------------------------------------------------------------------------------
+
+/// One hand-built Core program: well-typed by TC-CORE (premise), then focused by the real code.
+/// C03: same behaviour on R-CORE before and after, binders distinct afterwards.
+/// C04: the focused program and its shrunk AxCut program agree; C12: every stage type-checks.
+pub fn check_core_case(name: &str, prog: &core_lang::syntax::Prog, prop: Prop, rep: &mut Report) {
+    use printer::Print;
+    let text = prog.print_to_string(None);
+    let cj = |input: &[i64]| json!({"kind": "corefam", "property": prop.id(), "name": name, "core": text, "input": input});
+    rep.distinct.push(hash64(&text));
+    match tc::core::check_prog(prog) {
+        Ok(s) => rep.count("states", s.nodes),
+        Err(e) => {
+            rep.machinery(format!("{name}: generated Core program is not well-typed: {e}"));
+            return;
+        }
+    }
+    rep.count("core_programs", 1);
+    let focused = match pipeline::focus(prog.clone()) {
+        Ok(f) => f,
+        Err(StageError::Panic { stage, msg }) => {
+            if matches!(prop, Prop::C03 | Prop::C12) {
+                rep.violation(format!("panic/{stage}/core"), format!("{name}: stage {stage} panicked on a well-typed Core program: {msg}"), cj(&[]));
+            }
+            return;
+        }
+        Err(e) => {
+            rep.machinery(format!("{name}: {e:?}"));
+            return;
+        }
+    };
+    let focused_as_core = unfocus(&focused);
+    match prop {
+        Prop::C03 => {
+            match tc::core::check_unique_binders(&focused) {
+                Ok(n) => rep.count("states", n),
+                Err(e) => rep.violation("static/binders/core".to_string(), format!("{name}: {e}"), cj(&[])),
+            }
+            for input in [[0i64], [3]] {
+                rep.count("cases", 1);
+                let before = run_core(prog, 0, &input, FUEL);
+                let after = run_core(&focused_as_core, 0, &input, FUEL);
+                rep.count("transitions", before.steps + after.steps);
+                match agree(&before, &after, "Core machine before vs after focusing (hand-built Core)") {
+                    Ok(true) => {
+                        rep.count("traces_validated_against_impl", 1);
+                        rep.outcomes.insert(format!("match/core/{}", describe(&after).chars().take(24).collect::<String>()));
+                    }
+                    Ok(false) => rep.count("skipped_undefined", 1),
+                    Err((kind, msg)) => {
+                        rep.outcomes.insert(format!("violation/{kind}"));
+                        rep.violation(format!("C03/core/{kind}"), format!("{name} on {input:?}: {msg}"), cj(&input));
+                    }
+                }
+            }
+        }
+        Prop::C04 | Prop::C05 | Prop::C12 => {
+            let shrunk = match pipeline::shrink(focused.clone()) {
+                Ok(s) => s,
+                Err(StageError::Panic { stage, msg }) => {
+                    rep.violation(format!("panic/{stage}/core"), format!("{name}: stage {stage} panicked: {msg}"), cj(&[]));
+                    return;
+                }
+                Err(e) => {
+                    rep.machinery(format!("{name}: {e:?}"));
+                    return;
+                }
+            };
+            if prop == Prop::C04 {
+                match lifted_signatures(&shrunk) {
+                    Ok(n) => rep.count("lifted_definitions_checked", n),
+                    Err(e) => rep.violation("static/lifted-signature/core".to_string(), format!("{name}: {e}"), cj(&[])),
+                }
+                match tc::ax::check_named_prog(&shrunk) {
+                    Ok(n) => rep.count("states", n),
+                    Err(e) => rep.violation("static/scoping/core".to_string(), format!("{name}: shrunk program: {e}"), cj(&[])),
+                }
+                for input in [[0i64], [3]] {
+                    rep.count("cases", 1);
+                    let before = run_core(&focused_as_core, 0, &input, FUEL);
+                    let after = run_named(&shrunk, 0, &input, FUEL);
+                    rep.count("transitions", before.steps + after.steps);
+                    match agree(&before, &after, "focused Core machine vs AxCut machine on the shrunk program (hand-built Core)") {
+                        Ok(true) => {
+                            rep.count("traces_validated_against_impl", 1);
+                            rep.outcomes.insert("match/core".to_string());
+                        }
+                        Ok(false) => rep.count("skipped_undefined", 1),
+                        Err((kind, msg)) => {
+                            rep.outcomes.insert(format!("violation/{kind}"));
+                            rep.violation(format!("C04/core/{kind}"), format!("{name} on {input:?}: {msg}"), cj(&input));
+                        }
+                    }
+                }
+            } else if prop == Prop::C05 {
+                let linear = match pipeline::linearize(shrunk.clone()) {
+                    Ok(l) => l,
+                    Err(StageError::Panic { .. }) => {
+                        rep.count("later_stage_panics_seen", 1);
+                        return;
+                    }
+                    Err(e) => {
+                        rep.machinery(format!("{name}: {e:?}"));
+                        return;
+                    }
+                };
+                match tc::ax::check_linear_prog(&linear) {
+                    Ok(st) => {
+                        rep.count("states", st.statements);
+                        rep.count("paths_checked", st.paths);
+                    }
+                    Err(e) => rep.violation("static/linear/core".to_string(), format!("{name}: linearized program violates the ordered-linear discipline: {e}"), cj(&[])),
+                }
+                for input in [[0i64], [3]] {
+                    rep.count("cases", 1);
+                    let before = run_named(&shrunk, 0, &input, FUEL);
+                    let after = run_positional(&linear, 0, &input, FUEL);
+                    rep.count("transitions", before.steps + after.steps);
+                    match agree(&before, &after, "AxCut machine (by name) vs linearized program on the positional machine (hand-built Core)") {
+                        Ok(true) => {
+                            rep.count("traces_validated_against_impl", 1);
+                            rep.outcomes.insert("match/core".to_string());
+                        }
+                        Ok(false) => rep.count("skipped_undefined", 1),
+                        Err((kind, msg)) => {
+                            rep.outcomes.insert(format!("violation/{kind}"));
+                            rep.violation(format!("C05/core/{kind}"), format!("{name} on {input:?}: {msg}"), cj(&input));
+                        }
+                    }
+                }
+            } else {
+                rep.count("cases", 1);
+                rep.count("evaluations", 1);
+                let linear = match pipeline::linearize(shrunk.clone()) {
+                    Ok(l) => l,
+                    Err(StageError::Panic { stage, msg }) => {
+                        rep.violation(format!("panic/{stage}/core"), format!("{name}: stage {stage} panicked: {msg}"), cj(&[]));
+                        return;
+                    }
+                    Err(e) => {
+                        rep.machinery(format!("{name}: {e:?}"));
+                        return;
+                    }
+                };
+                let checks: Vec<(&str, Result<u64, String>)> = vec![
+                    ("focused", tc::core::check_prog(&focused_as_core).map(|s| s.nodes)),
+                    ("shrunk", tc::ax::check_named_prog(&shrunk)),
+                    ("linearized", tc::ax::check_linear_prog(&linear).map(|s| s.statements)),
+                ];
+                for (stage, r) in checks {
+                    match r {
+                        Ok(n) => rep.count("states", n),
+                        Err(e) => {
+                            rep.outcomes.insert(format!("ill-typed/{stage}"));
+                            rep.violation(format!("ill-typed/{stage}/core"), format!("{name}: {stage} program: {e}"), cj(&[]));
+                        }
+                    }
+                }
+            }
+        }
+        _ => {}
+    }
+}
+
+/// Sizes and alphabets of the G-CORE enumeration per tier.
+pub fn core_enumeration(thorough: bool, prop: Prop) -> Vec<(&'static str, crate::generate::corefam::Alphabet, usize)> {
+    use crate::generate::corefam::{Alphabet, T};
+    if let Ok(v) = std::env::var("VERIF_CORE_MAX") {
+        // experimentation aid: "a,b" = maximal sizes of the two enumerations
+        let ns: Vec<usize> = v.split(',').filter_map(|x| x.parse().ok()).collect();
+        return vec![
+            ("all", Alphabet { types: vec![T::Int, T::Pair, T::Fun], with_if: true, with_call: true, with_exit: true }, ns[0]),
+            ("int-pair", Alphabet { types: vec![T::Int, T::Pair], with_if: false, with_call: false, with_exit: false }, ns[1]),
+        ];
+    }
+    // C03 only runs the two Core machines; C04/C12 add shrinking (+ linearization and three checkers)
+    let (a, b) = match (thorough, prop) {
+        (false, Prop::C03) => (12, 14),
+        (false, _) => (11, 13),
+        (true, Prop::C03) => (14, 16),
+        (true, _) => (13, 15),
+    };
+    vec![
+        ("all", Alphabet { types: vec![T::Int, T::Pair, T::Fun], with_if: true, with_call: true, with_exit: true }, a),
+        ("int-pair", Alphabet { types: vec![T::Int, T::Pair], with_if: false, with_call: false, with_exit: false }, b),
+    ]
+}
+
+pub fn core_worker(ctx: &WorkerCtx, prop: Prop, rep: &mut Report) {
+    use crate::generate::corefam::{initial_scope, program, Enum};
+    let mut idx = 0u64;
+    for (aname, alpha, max) in core_enumeration(ctx.tier.thorough(), prop) {
+        let mut e = Enum::new(alpha);
+        for size in 3..=max {
+            let all = e.stmts(initial_scope(), size);
+            for (i, s) in all.iter().enumerate() {
+                idx += 1;
+                if !ctx.mine(idx) {
+                    continue;
+                }
+                let prog = program(s);
+                check_core_case(&format!("core/{aname}/n{size}/{i}"), &prog, prop, rep);
+            }
+            if ctx.out_of_time() {
+                rep.capped = Some(format!("time budget hit in the Core enumeration {aname} at size {size}"));
+                return;
+            }
+        }
+    }
 }
 
 // ---------------------------------------------------------------------------------------------
